@@ -754,6 +754,9 @@ func (m *connectUnaryMarshaler) Marshal(message any) *Error {
 	uncompressed := bytes.NewBuffer(data)
 	defer m.bufferPool.Put(uncompressed)
 	if len(data) < m.compressMinBytes || m.compressionPool == nil {
+		// The header map may belong to a Request that was sent before with a
+		// compressed body: this body isn't compressed.
+		m.header.Del(connectUnaryHeaderCompression)
 		return m.write(data)
 	}
 	compressed := m.bufferPool.Get()
